@@ -71,4 +71,155 @@ theorem decode_status :
 
 example : decode 0x0100 = (1, 0) ∧ decode 0x008b = (0, 11) ∧ decode 9 = (0, 9) := by decide
 
+/-! ## exit_cb exactly once (histories of spawn / exit / SIGCHLD / close in any order) -/
+
+/-- **exit_once (safety).** After *every* history, for every child: `waitpid` returned it at most once
+(a reaped child is never waited for again), `exit_cb` ran exactly as often as it was reaped — so at
+most once —, never before the reap. -/
+theorem exit_at_most_once (ops : List Op) (id : Nat) :
+    waitCount (runP {} ops).log id ≤ 1 ∧
+    cbCount (runP {} ops).log id = waitCount (runP {} ops).log id :=
+  ⟨(inv_run inv_init ops).once id, (inv_run inv_init ops).cbw id⟩
+
+/-- **exit_cb tells the truth.** Every `exit_cb` in any history is for a child whose spawn succeeded
+(never for a failed spawn), which the kernel really terminated with some status word `st`, which
+`waitpid` reported with exactly that word, and the callback's arguments are that word decoded as at
+process.c:166-172. -/
+theorem exit_cb_true_status (ops : List Op) (e : ExitEv) (h : Log.cb e ∈ (runP {} ops).log) :
+    e.id ∈ (runP {} ops).okIds ∧
+    ∃ st, (e.id, st) ∈ (runP {} ops).exits ∧ Log.waited e.id st ∈ (runP {} ops).log ∧
+      e.exitStatus = (decode st).1 ∧ e.termSignal = (decode st).2 := by
+  have inv := inv_run inv_init ops
+  obtain ⟨st, h1, h2, h3⟩ := inv.dec e h
+  exact ⟨inv.okW _ _ h1, st, inv.truth _ _ h1, h1, h2, h3⟩
+
+/-- **exit_once (liveness, coalescing).** In any reachable state, one SIGCHLD round reports *every*
+tracked child that has terminated — however many there are at once (the statement is for all `id`
+simultaneously, about the same round) —: exactly one `exit_cb` in total with the decoded status, the
+child is reaped (gone from the kernel) and no longer tracked. -/
+theorem exit_reported (ops : List Op) (id st : Nat)
+    (ht : id ∈ (runP {} ops).tracked) (hz : (runP {} ops).kern id = .zombie st) :
+    let s' := stepP (runP {} ops) .sigchld
+    cbCount s'.log id = 1 ∧ Log.cb ⟨id, (decode st).1, (decode st).2⟩ ∈ s'.log ∧
+    id ∉ s'.tracked ∧ s'.kern id = .gone := by
+  have inv := inv_run inv_init ops
+  have inv' := inv_step inv .sigchld
+  have hm : (id, st) ∈ (pollAll (kernWait (runP {} ops)) (runP {} ops).tracked).2 :=
+    (pollAll_mem _ _ _ _).mpr ⟨ht, kernWait_reaped.mpr hz⟩
+  have hgone : (stepP (runP {} ops) .sigchld).kern id = .gone := by
+    show (if (pollAll (kernWait (runP {} ops)) (runP {} ops).tracked).2.any (·.1 == id) then KState.gone
+      else (runP {} ops).kern id) = .gone
+    have : (pollAll (kernWait (runP {} ops)) (runP {} ops).tracked).2.any (·.1 == id) = true :=
+      List.any_eq_true.mpr ⟨(id, st), hm, by simp⟩
+    simp [this]
+  have hcb : Log.cb ⟨id, (decode st).1, (decode st).2⟩ ∈ (stepP (runP {} ops) .sigchld).log := by
+    simp only [stepP, List.mem_append, List.mem_map, report]
+    exact Or.inr ⟨_, ⟨(id, st), hm, rfl⟩, rfl⟩
+  refine ⟨?_, hcb, fun hin => inv'.alive id hin hgone, hgone⟩
+  have h1 := inv'.cbw id
+  have h2 := inv'.once id
+  have h3 : 0 < cbCount (stepP (runP {} ops) .sigchld).log id := by
+    unfold cbCount
+    apply List.length_pos_of_mem (a := Log.cb ⟨id, (decode st).1, (decode st).2⟩)
+    exact List.mem_filter.mpr ⟨hcb, by simp [Log.isCb]⟩
+  omega
+
+/-- **tracked until reaped.** A successfully spawned child enters the tracked list, and leaves it only
+by being reaped in a SIGCHLD round (having terminated) or by `uv_close` of its handle — in particular
+not because *other* children exited, were spawned, or failed to spawn. -/
+theorem tracked_until_reaped (s : PS) (op : Op) (id : Nat) (ht : id ∈ s.tracked) :
+    id ∈ (stepP s op).tracked ∨ op = .closeHandle id ∨
+      (op = .sigchld ∧ ∃ st, s.kern id = .zombie st) := by
+  cases op with
+  | spawnOk => exact Or.inl (by simp [stepP, ht])
+  | spawnFail => exact Or.inl ht
+  | childExit c st => exact Or.inl (by simp only [stepP]; split <;> exact ht)
+  | closeHandle c =>
+    by_cases h : id = c
+    · exact Or.inr (Or.inl (by rw [h]))
+    · exact Or.inl (by simp [stepP, ht, h])
+  | sigchld =>
+    cases hk : s.kern id with
+    | zombie st => exact Or.inr (Or.inr ⟨rfl, st, rfl⟩)
+    | running =>
+      refine Or.inl ?_
+      show id ∈ (pollAll (kernWait s) s.tracked).1
+      rw [pollAll_fst]; simp [ht, kernWait, hk, isReaped]
+    | gone =>
+      refine Or.inl ?_
+      show id ∈ (pollAll (kernWait s) s.tracked).1
+      rw [pollAll_fst]; simp [ht, kernWait, hk, isReaped]
+
+theorem spawn_ok_tracked (s : PS) : s.nspawned ∈ (stepP s .spawnOk).tracked := by simp [stepP]
+
+/-- **spawn_failure_clean** (decision level, process.c:953-975 + 1053-1074): whatever errno the child
+reported (or EPIPE), `uv_spawn` returns that error, has reaped the child itself, and does not activate
+the handle; in the history model a failed spawn's id is never tracked and never gets an `exit_cb`. -/
+theorem spawn_failure_clean :
+    (∀ e, 0 < e → (spawnParent (.errno e)).ret = -(e : Int) ∧ (spawnParent (.errno e)).ret ≠ 0 ∧
+      (spawnParent (.errno e)).reapedSync = true ∧ (spawnParent (.errno e)).activated = false) ∧
+    (spawnParent .epipe).reapedSync = true ∧ (spawnParent .epipe).activated = false ∧
+    (∀ (ops : List Op) (ops' : List Op),
+      let s := runP {} ops
+      let s' := runP (stepP s .spawnFail) ops'
+      s.nspawned ∉ s'.tracked ∧ cbCount s'.log s.nspawned = 0) := by
+  refine ⟨?_, rfl, rfl, ?_⟩
+  · intro e he
+    refine ⟨rfl, ?_, rfl, ?_⟩
+    · simp [spawnParent]; omega
+    · simp [spawnParent]; omega
+  · intro ops ops'
+    have inv := inv_run inv_init ops
+    have hno : (runP {} ops).nspawned ∉ (runP {} ops).okIds := fun h => by
+      have := inv.okLt _ h; omega
+    -- okIds of later states only gain ids ≥ the nspawned of that time
+    have key : ∀ (l : List Op) (s : PS) (n : Nat), Inv s → n < s.nspawned → n ∉ s.okIds →
+        n ∉ (runP s l).okIds ∧ Inv (runP s l) := by
+      intro l
+      induction l with
+      | nil => intro s n hi _ hn; exact ⟨hn, hi⟩
+      | cons op rest ih =>
+        intro s n hi hlt hn
+        have hi' := inv_step hi op
+        apply ih (stepP s op) n hi'
+        · cases op with
+          | spawnOk => show n < s.nspawned + 1; omega
+          | spawnFail => show n < s.nspawned + 1; omega
+          | childExit c st => simp only [stepP]; split <;> exact hlt
+          | sigchld => exact hlt
+          | closeHandle c => exact hlt
+        · cases op with
+          | spawnOk => simp only [stepP, List.mem_append, List.mem_singleton]; intro h; rcases h with h | h; exact hn h; omega
+          | spawnFail => exact hn
+          | childExit c st => simp only [stepP]; split <;> exact hn
+          | sigchld => exact hn
+          | closeHandle c => exact hn
+    have hi1 := inv_step inv .spawnFail
+    obtain ⟨hnok, hinv⟩ := key ops' (stepP (runP {} ops) .spawnFail) (runP {} ops).nspawned hi1
+      (by simp [stepP]) hno
+    refine ⟨fun h => hnok (hinv.okT _ h), ?_⟩
+    rw [hinv.cbw]
+    cases hc : waitCount (runP (stepP (runP {} ops) .spawnFail) ops').log (runP {} ops).nspawned with
+    | zero => rfl
+    | succ k =>
+      exfalso
+      have hpos : 0 < ((runP (stepP (runP {} ops) .spawnFail) ops').log.filter (Log.isWaited (runP {} ops).nspawned)).length := by
+        unfold waitCount at hc; omega
+      obtain ⟨x, hx⟩ := List.exists_mem_of_length_pos hpos
+      obtain ⟨hx1, hx2⟩ := List.mem_filter.mp hx
+      cases x with
+      | cb e => simp [Log.isWaited] at hx2
+      | waited c st =>
+        have : c = (runP {} ops).nspawned := by simpa [Log.isWaited] using hx2
+        subst this
+        exact hnok (hinv.okW _ _ hx1)
+
+/-- non-vacuity: three children, two exit before the loop runs (one killed by SIGSEGV with core), one
+SIGCHLD round reports both, the third later; a failed spawn in between gets nothing. -/
+example :
+    let s := runP {} [.spawnOk, .spawnOk, .spawnFail, .spawnOk, .childExit 0 (3 <<< 8), .childExit 3 (11 ||| 128),
+                      .sigchld, .childExit 1 0, .sigchld, .sigchld]
+    s.log = [.waited 0 768, .waited 3 139, .cb ⟨0, 3, 0⟩, .cb ⟨3, 0, 11⟩, .waited 1 0, .cb ⟨1, 0, 0⟩] ∧
+    s.tracked = [] := by decide
+
 end UvModel.ProcFd
